@@ -68,7 +68,9 @@ func runC20(ctx *core.Ctx) {
 		// handler reach: no global writes, no stores through cached values
 		bad := 0
 		nf := 0
-		for _, f := range reachableMod(p, []*ssa.Function{h}, func(f *ssa.Function) bool { return strings.HasPrefix(shortFn(f), "par.") || strings.Contains(shortFn(f), "par.") }) {
+		for _, f := range reachableMod(p, []*ssa.Function{h}, func(f *ssa.Function) bool {
+			return strings.HasPrefix(shortFn(f), "par.") || strings.Contains(shortFn(f), "par.")
+		}) {
 			nf++
 			ctx.Seen(f)
 			for _, w := range writesIn(p, f) {
